@@ -7,10 +7,37 @@ from common import Check, build, run, tlc, tlc_tail, BUILD, seed
 from tracecheck import validate
 
 
+def apalache_inductive(chk):
+    import shutil, subprocess, tempfile, time
+    here = os.path.dirname(os.path.dirname(os.path.dirname(os.path.abspath(__file__))))
+    exe = shutil.which("apalache-mc")
+    if not exe:
+        chk.notes.append("apalache-mc not found: inductive check of YkPermA (F=15) skipped")
+        return
+    out = tempfile.mkdtemp(prefix="apa_")
+    try:
+        for what, args in (("base case", ["--init=Init", "--inv=Valid", "--length=0"]), ("inductive step from any valid permutation", ["--init=IndInit", "--inv=Valid", "--length=1"])):
+            t0 = time.time()
+            try:
+                r = subprocess.run([exe, "check", "--cinit=CInit", "--out-dir=" + out] + args + [os.path.join(here, "spec", "YkPermA.tla")], stdout=subprocess.PIPE, stderr=subprocess.STDOUT,
+                                   text=True, errors="replace", timeout=600, cwd=out)
+            except subprocess.TimeoutExpired:
+                chk.notes.append("apalache %s of YkPermA timed out (undecided, supplementary)" % what)
+                continue
+            ok = "The outcome is: NoError" in r.stdout
+            chk.cov.setdefault("apalache", []).append({"what": "YkPermA F=15 " + what, "ok": ok, "wall_s": round(time.time() - t0, 1)})
+            if "The outcome is: Error" in r.stdout:
+                chk.error("Apalache: Valid is not inductive for YkPermA (%s): %s" % (what, r.stdout[-600:]))
+            elif not ok:
+                chk.notes.append("apalache %s of YkPermA undecided (tool problem): %s" % (what, r.stdout[-200:].replace("\n", " ")))
+    finally:
+        shutil.rmtree(out, ignore_errors=True)
+
+
 def main(prop, tier):
     chk = Check(prop, tier)
     chk.assumptions += ["the permutation word is read/written with single atomic loads/stores (std::atomic<uint64_t>)",
-                        "exhaustive model at F=6; F=15 covered by replay of a seeded ordering family and random walks"]
+                        "exhaustive TLC model at F=6 (8 in thorough); at F=15 the invariant is shown INDUCTIVE symbolically (Apalache, YkPermA) and the code is replayed on a seeded ordering family and random walks"]
     res = tlc("YkPerm", "MC_Perm.cfg", workers=8, timeout=300)
     chk.add_tlc(res, "YkPerm exhaustive F=6")
     if not res.ok:
@@ -20,6 +47,9 @@ def main(prop, tier):
         chk.add_tlc(res, "YkPerm exhaustive F=8")
         if not res.ok:
             chk.error("YkPerm F=8 model check failed: " + tlc_tail(res, 12))
+    # the same invariant as an INDUCTIVE invariant at the code's fan-out 15 (Apalache, symbolic): base case + step from ANY valid permutation.
+    # Supplementary: a tool problem (Apalache missing / time-out) is noted, not an error; only a reported counterexample is.
+    apalache_inductive(chk)
     exe = build("permdrv", ["permdrv.cpp"])
     os.makedirs(os.path.join(BUILD, "traces"), exist_ok=True)
     walks, fam = (40, 3) if tier == "quick" else (400, 12)
